@@ -82,7 +82,8 @@ pub fn run(ctx: Ctx) -> ! {
             .filter_map(|d| {
                 let mut c = base.clone();
                 d.apply(&mut c);
-                if !matches!(c.tx.fee, FeeSpec::MinPlus(_)) || c.env.max_tx_size != SizeSpec::Default {
+                // a fixture must stay balanced when it is re-priced: it needs its change output
+                if !matches!(c.tx.fee, FeeSpec::MinPlus(_)) || c.env.max_tx_size != SizeSpec::Default || !c.tx.outputs.iter().any(|o| o.coin == txlab::Coin::Change) {
                     return None;
                 }
                 let p = probe(&c);
